@@ -292,6 +292,24 @@ func randRawObj(r *rand.Rand, malformed bool) any {
 	if r.Intn(8) == 0 {
 		o["unknown_key"] = "ignored"
 	}
+	// the wider domain the loader accepts: numbers in string fields (cast hook), booleans given as text,
+	// labels with scalar values or as a list of key=value strings, numeric / null driver options
+	if r.Intn(3) == 0 {
+		switch r.Intn(6) {
+		case 0:
+			o[[]string{"name", "file", "environment", "content", "driver", "template_driver"}[r.Intn(6)]] = []any{0, 7, -3, 65536}[r.Intn(4)]
+		case 1:
+			o["external"] = []string{"true", "false", "yes", "No", "ON", "off", "y", "n", "maybe", "", "TRUE"}[r.Intn(11)]
+		case 2:
+			o["labels"] = tree{"a": []any{1, true, nil, "v", 1.5, false}[r.Intn(6)], "b.c": "x: y"}
+		case 3:
+			o["labels"] = []any{"a=b", "c", "d=e=f", "a=z", "=v", 5, true, nil, "k=é"}[:1+r.Intn(9)]
+		case 4:
+			o["driver_opts"] = tree{"o": []any{1, nil, "s", -2}[r.Intn(4)], "p": "q"}
+		case 5:
+			o["labels"] = []any{"a=b", "a=c", "b", "a"}[r.Intn(4):]
+		}
+	}
 	if malformed {
 		ks := []string{"name", "file", "environment", "content", "external", "labels", "driver_opts", "#extensions", "NAME", "File"}
 		k := ks[r.Intn(len(ks))]
@@ -320,6 +338,20 @@ func genDecode(ctx *core.Ctx) {
 			}
 		}
 		ctx.Add("c20.decode", decodeArgs{V: enc(nil), Kind: kind})
+	}
+	// exhaustive: every node kind at every typed field
+	kindVals := []any{nil, true, false, 0, 42, 1.5, "", "x", "true", "Yes", "no", "k=v", []any{}, []any{"a=b", "c", 3, nil, true}, []any{tree{"k": "v"}}, tree{}, tree{"k": "v", "n": 3, "z": nil, "b": true, "f": 0.5}, tree{"k": []any{"x"}}}
+	for _, kind := range []string{"secret", "config"} {
+		for _, f := range []string{"name", "file", "environment", "content", "Content", "external", "labels", "driver", "driver_opts", "template_driver", "#extensions"} {
+			for _, v := range kindVals {
+				ctx.Count("decode-exh-kinds")
+				ctx.Add("c20.decode", decodeArgs{V: enc(tree{f: core.DeepCopyVal(v), "file": "/f"}), Kind: kind})
+			}
+		}
+		for _, v := range kindVals {
+			ctx.Count("decode-exh-kinds")
+			ctx.Add("c20.decode", decodeArgs{V: enc(core.DeepCopyVal(v)), Kind: kind})
+		}
 	}
 	for i := 0; i < ctx.Pick(4000, 80000); i++ {
 		mal := ctx.Rng.Intn(5) == 0
@@ -433,11 +465,18 @@ func (s resSpec) obj() tree {
 		o["external"] = true
 	}
 	if s.extras&1 != 0 {
-		o["labels"] = tree{"com.example.l": "v", "k": "x: y"}
+		switch len(s.name) % 3 {
+		case 0:
+			o["labels"] = tree{"com.example.l": "v", "k": "x: y"}
+		case 1:
+			o["labels"] = tree{"n": 3, "b": true, "z": nil, "s": "v"}
+		default:
+			o["labels"] = []any{"com.example.l=v", "bare", "k=a=b"}
+		}
 	}
 	if s.extras&2 != 0 {
 		if !s.config { // the schema has no driver / driver_opts on configs
-			o["driver_opts"] = tree{"o": "1"}
+			o["driver_opts"] = tree{"o": "1", "n": 2}
 			o["driver"] = "drv"
 		}
 		o["template_driver"] = "golang"
